@@ -115,8 +115,9 @@ def layout(draw, containers=("da", "ds", "list"), max_sd=3, max_fd=3, max_size=4
          "extra_coords": draw(st.integers(0, 3)) == 0, "seed": draw(st.integers(0, 2**31 - 1))}
     if min_features > 1:
         # enlarge the first feature dim of the first item until enough features exist
+        it0 = d["items"][0]
         while n_features(d) < min_features:
-            d["items"][0]["fpool"][0]["size"] += 1
+            it0["fpool"][it0["vars"][0]["fd"][0]]["size"] += 1
     return d
 
 
